@@ -181,7 +181,7 @@ typedef struct SimStats {
     uint64_t steps, switches, preempts, blocks;
     uint64_t short_reads, short_writes, eintrs, blocked_writes, blocked_reads;
     uint64_t sigpipe_kills, epipes, econnresets, eofs, conn_refused, backlog_waits;
-    uint64_t forks, execs, exec_fails, waitpid_nohang_zero, kills, zombie_delays, accept_fails;
+    uint64_t forks, execs, exec_fails, waitpid_nohang_zero, kills, zombie_delays, accept_fails, fork_dup_flushes;
     uint64_t poll_timeouts, sleeps, mutex_contended, threads_created;
     uint64_t flock_contended, img_swaps;
 } SimStats;
